@@ -185,3 +185,24 @@ def replay(files, violation, known=(), timeout=300):
     else:
         ok = False
     return ok, line
+
+
+def probe_prefixes(prog, entry, opts, depth, intr_factory=None):
+    """enumerate the distinct verifChoice prefixes of length `depth` (paths that make fewer choices are
+    returned with their full, shorter choice list). Used to split one harness over worker processes."""
+    o = dict(opts)
+    o["probe_depth"] = depth
+    intr = (intr_factory or Intrinsics)()
+    eng = Engine(prog, intr, o)
+    eng.keep_final = True
+    eng.run_init()
+    st = eng.start(prog.main + "." + entry)
+    fin = eng.explore([st])
+    out = [tuple(p) for p in eng.probe_out]
+    for f in fin:
+        out.append(tuple(f.choices))
+    seen = []
+    for p in out:
+        if p not in seen:
+            seen.append(p)
+    return seen
